@@ -15,6 +15,11 @@
 //! monitor, with tuning/44100 seconds to one frame) and the real Compressor's attack / release durations (time
 //! constants read off the output of a level step, in seconds) -- at single rates and after histories of callbacks,
 //! rate changes and parameter changes that the SAME effect instance lived through.
+//! Part E (filter frequencies in hertz; runs FIRST, its fixed cases do not depend on the seed): the sine response of the
+//! real EqFilter at its band frequency (bell: the configured gain; shelves: half of it in dB; a bell's extremum is at its
+//! frequency) for bands up to 0.45 of the device rate, at every rate, after init / on_change_sample_rate sequences and on
+//! sub-tracks that lived through add / callback / change / set_frequency histories.  C16/Model.v takes `tan` as an oracle
+//! argument, so `filter_coeff_depends_on_ratio` holds for ANY tan: a wrong prewarp is visible to this monitor only.
 #![allow(dead_code)]
 use crate::backend::{indexed_sound, sound_from_frames, VBackend, VSettings};
 use crate::util::*;
@@ -1047,6 +1052,8 @@ enum Pre {
 	/// compressor only, after the add: handle.set_attack_duration / set_release_duration (microseconds), no tween time
 	SetAttack(u64),
 	SetRelease(u64),
+	/// EQ band only (Part E), after the add: handle.set_frequency (hertz), no tween time
+	SetEqFrequency(f64),
 }
 #[derive(Clone, Debug)]
 struct FxHist {
@@ -1293,6 +1300,318 @@ fn part_d(s: &mut Session, rng: &mut Rng, args: &Args) {
 	s.notes.push("Part D: Reverb echo positions (3 per side) after init / on_change_sample_rate sequences and on sub-tracks that lived through add / callback / change orders; Compressor attack and release time constants measured in seconds after the same kinds of history incl. set_attack_duration / set_release_duration before a change".to_string());
 }
 
+// ---------------------------------------------------------------------------------------------
+// Part E: EQ bands sit at their frequency in HERTZ, with their gain, at every device rate and across changes
+// ---------------------------------------------------------------------------------------------
+// The other filter checks compare a run across a change with a run at the final rate (equal whenever the effect uses
+// the rate in force, whatever it computes from it) and (f, sr) with (2f, 2sr) (equal whenever the coefficient depends
+// on f/sr alone).  Neither looks at WHERE in hertz the band ends up.  Here the response of the real EqFilter is
+// measured with sines: the gain at the band's own frequency is the configured gain (bell) / half of it in decibels
+// (shelves: the band frequency is the midpoint of the shelf) -- the bilinear transform with exact prewarping maps the
+// band frequency onto itself at every rate -- and a bell's extremum lies at its frequency, not beside it.
+use kira::effect::eq_filter::{EqFilterBuilder, EqFilterKind};
+use std::sync::atomic::AtomicU64;
+
+/// amplitude of the component at `w` radians per frame in y[n], n = n0.. (least squares on sin / cos: exact for a pure sine)
+fn fit_amp(y: &[f64], w: f64, n0: usize) -> f64 {
+	let (mut ss, mut sc, mut cc, mut ys, mut yc) = (0.0f64, 0.0f64, 0.0f64, 0.0f64, 0.0f64);
+	for (i, v) in y.iter().enumerate() {
+		let (sn, cs) = (w * (n0 + i) as f64).sin_cos();
+		ss += sn * sn;
+		sc += sn * cs;
+		cc += cs * cs;
+		ys += v * sn;
+		yc += v * cs;
+	}
+	let det = ss * cc - sc * sc;
+	let a = (ys * cc - yc * sc) / det;
+	let b = (yc * ss - ys * sc) / det;
+	a.hypot(b)
+}
+#[derive(Clone, Copy, Debug, PartialEq)]
+struct Band {
+	kind: EqFilterKind,
+	f0: f64,
+	gain_db: f64,
+	q: f64,
+}
+impl Band {
+	fn build(&self) -> EqFilterBuilder {
+		EqFilterBuilder::new(self.kind, self.f0, Decibels(self.gain_db as f32), self.q)
+	}
+	/// the gain in decibels that the band has AT its frequency
+	fn gain_at_f0(&self) -> f64 {
+		match self.kind {
+			EqFilterKind::Bell => self.gain_db,
+			_ => self.gain_db / 2.0,
+		}
+	}
+	/// frames after which the transient of a change of the input has died away (16 time constants of the digital poles)
+	fn settle(&self, f0: f64, sr: u32) -> usize {
+		let a = 10f64.powf(self.gain_db.abs() / 20.0);
+		let r = (f0 / sr as f64).clamp(0.0001, 0.49);
+		(32.0 * self.q.max(1.0) * a / (std::f64::consts::TAU * r).sin()) as usize + 256
+	}
+	fn window(&self, f: f64, sr: u32) -> usize {
+		((60.0 * sr as f64 / f) as usize).max(768)
+	}
+	/// the frequencies probed: the band's own and, for a bell, 4 % to either side
+	fn tests(&self) -> Vec<f64> {
+		match self.kind {
+			EqFilterKind::Bell => vec![self.f0, self.f0 * 0.96, self.f0 * 1.04],
+			_ => vec![self.f0],
+		}
+	}
+}
+/// gain in decibels of `proc` for a sine of `f` Hz at `sr` Hz
+fn sine_gain(proc_: &mut dyn FnMut(&mut [Frame]), sr: u32, f: f64, settle: usize, window: usize, chunk: usize) -> f64 {
+	let w = std::f64::consts::TAU * f / sr as f64;
+	let n = settle + window;
+	let mut inp: Vec<Frame> = (0..n).map(|i| Frame::from_mono((0.125 * (w * i as f64).sin()) as f32)).collect();
+	let x: Vec<f64> = inp[settle..].iter().map(|v| v.left as f64).collect();
+	for c in inp.chunks_mut(chunk.max(1)) {
+		proc_(c);
+	}
+	let y: Vec<f64> = inp[settle..].iter().map(|v| v.left as f64).collect();
+	20.0 * (fit_amp(&y, w, settle) / fit_amp(&x, w, settle)).log10()
+}
+/// the real EqFilter driven directly: `init(rates[0])`, then `on_change_sample_rate(rates[i])`; after each step the gain
+/// at every probed frequency, with the dt of that rate.  The same instance lives through all of it.
+fn eq_gains_direct(band: &Band, rates: &[u32]) -> Vec<Vec<f64>> {
+	let info = kira::info::MockInfoBuilder::new().build();
+	let mut e = band.build().build().0;
+	let mut out = vec![];
+	for (i, r) in rates.iter().enumerate() {
+		if i == 0 {
+			e.init(*r, 64);
+		} else {
+			e.on_change_sample_rate(*r);
+		}
+		let dt = 1.0 / *r as f64;
+		let mut row = vec![];
+		for f in band.tests() {
+			row.push(sine_gain(&mut |c: &mut [Frame]| e.process(c, dt, &info), *r, f, band.settle(band.f0, *r), band.window(f, *r), 64));
+		}
+		out.push(row);
+	}
+	out
+}
+/// a sine source at the head of a track's effect chain (no resampler in the way); its frequency is set from outside
+/// and its phase advances by 2 pi f dt per frame with the dt the track hands it
+struct SineSource {
+	freq: Arc<AtomicU64>,
+	phase: f64,
+}
+impl Effect for SineSource {
+	fn process(&mut self, input: &mut [Frame], dt: f64, _info: &Info) {
+		let f = f64::from_bits(self.freq.load(Ordering::SeqCst));
+		for fr in input.iter_mut() {
+			let v = (0.125 * self.phase.sin()) as f32;
+			*fr = Frame::new(fr.left + v, fr.right + v);
+			self.phase += std::f64::consts::TAU * f * dt;
+		}
+	}
+}
+struct SineSourceBuilder(Arc<AtomicU64>);
+impl EffectBuilder for SineSourceBuilder {
+	type Handle = ();
+	fn build(self) -> (Box<dyn Effect>, ()) {
+		(Box::new(SineSource { freq: self.0, phase: 0.0 }), ())
+	}
+}
+/// the band on a sub-track of a real manager that lived through `h` (callbacks, device rate changes before / after
+/// the add, frequency set through the handle), measured at the final rate.  Returns (band as finally configured, gains).
+fn eq_gains_scene(h: &FxHist, band0: &Band) -> (Band, Vec<f64>) {
+	let freq = Arc::new(AtomicU64::new(0f64.to_bits()));
+	let mut m = crate::backend::simple_manager(h.sr0, h.ibs);
+	let mut sr = h.sr0;
+	let mut band = *band0;
+	let do_pre = |m: &mut crate::backend::Mgr, p: &Pre, sr: &mut u32| match p {
+		Pre::Cb(n) => {
+			m.backend_mut().callback(*n, 2);
+		}
+		Pre::Change(r) => {
+			m.backend_mut().set_sample_rate(*r);
+			*sr = *r;
+		}
+		_ => {}
+	};
+	for p in &h.before_add {
+		do_pre(&mut m, p, &mut sr);
+	}
+	let mut b = TrackBuilder::new();
+	b.add_effect(SineSourceBuilder(freq.clone()));
+	let mut eh = b.add_effect(band.build());
+	let _track = m.add_sub_track(b).unwrap();
+	for p in &h.after_add {
+		match p {
+			Pre::SetEqFrequency(f) => {
+				eh.set_frequency(*f, now_tween());
+				band.f0 = *f;
+			}
+			p => do_pre(&mut m, p, &mut sr),
+		}
+	}
+	for _ in 0..2 {
+		m.backend_mut().callback(h.fpc, 2);
+	}
+	let mut gains = vec![];
+	for f in band.tests() {
+		freq.store(f.to_bits(), Ordering::SeqCst);
+		let (settle, window) = (band.settle(band.f0, sr), band.window(f, sr));
+		let mut out: Vec<f64> = vec![];
+		while out.len() < settle + window {
+			out.extend(m.backend_mut().callback(h.fpc, 2).chunks(2).map(|c| c[0] as f64));
+		}
+		// the source is a sine of amplitude 0.125 whatever its phase
+		let w = std::f64::consts::TAU * f / sr as f64;
+		gains.push(20.0 * (fit_amp(&out[settle..settle + window], w, settle) / 0.125).log10());
+	}
+	(band, gains)
+}
+/// MONITOR eq_band_in_hertz ("filter frequencies keep their values" at every rate and across changes):
+/// the gain at the band frequency is the band's gain there, to 0.1 dB; a bell's extremum is at its frequency
+fn check_band(s: &mut Session, desc: &str, band: &Band, sr: u32, gains: &[f64]) {
+	let want = band.gain_at_f0();
+	let g0 = gains[0];
+	if !((g0 - want).abs() <= 0.1) {
+		s.fail(
+			desc.to_string(),
+			format!(
+				"at a device rate of {sr} Hz a sine of {} Hz (the band's frequency, {:.4} of the rate) comes out of {:?} with {:+.3} dB; the band's gain at its own frequency is {:+.3} dB at every rate: the band does not sit at {} Hz at this rate",
+				band.f0,
+				band.f0 / sr as f64,
+				band,
+				g0,
+				want,
+				band.f0
+			),
+			None,
+		);
+		return;
+	}
+	if band.kind == EqFilterKind::Bell && gains.len() == 3 {
+		for (k, side) in [(1usize, "below"), (2, "above")] {
+			// boost: no neighbour louder than the centre; cut: none quieter
+			let beyond = if band.gain_db >= 0.0 { gains[k] - g0 } else { g0 - gains[k] };
+			if !(beyond <= 0.02) {
+				s.fail(
+					desc.to_string(),
+					format!(
+						"at {sr} Hz the bell {:?} acts more strongly 4 % {side} its frequency ({:+.3} dB) than at its frequency {} Hz ({:+.3} dB): its centre is not at {} Hz at this rate",
+						band, gains[k], band.f0, g0, band.f0
+					),
+					None,
+				);
+			}
+		}
+	}
+}
+fn check_band_direct(s: &mut Session, kind: &str, band: &Band, rates: &[u32]) {
+	let rows = eq_gains_direct(band, rates);
+	s.eval_only(kind);
+	for (i, (row, r)) in rows.iter().zip(rates).enumerate() {
+		check_band(s, &format!("EqFilter {band:?} driven directly: init / on_change_sample_rate through the rates {rates:?}; sine response measured after step {i} with dt = 1/{r}"), band, *r, row);
+	}
+}
+fn check_band_scene(s: &mut Session, kind: &str, band: &Band, h: &FxHist) {
+	let (fin, gains) = eq_gains_scene(h, band);
+	s.eval_only(kind);
+	check_band(s, &h.describe(&format!("a sine source followed by EqFilter {band:?}")), &fin, h.final_rate(), &gains);
+}
+const EQ_RATES: [u32; 5] = [96000, 48000, 44100, 22050, 16000];
+/// fixed, independent of the seed, run first: bands at a large fraction of the device rate
+fn part_e_fixed(s: &mut Session) {
+	let bell = Band { kind: EqFilterKind::Bell, f0: 6000.0, gain_db: 12.0, q: 6.0 };
+	let bands = [
+		bell,
+		Band { kind: EqFilterKind::Bell, f0: 6000.0, gain_db: -9.0, q: 3.0 },
+		Band { kind: EqFilterKind::LowShelf, f0: 6000.0, gain_db: 12.0, q: 0.9 },
+		Band { kind: EqFilterKind::HighShelf, f0: 6000.0, gain_db: -12.0, q: 0.9 },
+		Band { kind: EqFilterKind::HighShelf, f0: 6000.0, gain_db: 9.0, q: 1.5 },
+	];
+	for b in &bands {
+		for r in EQ_RATES {
+			check_band_direct(s, "eq_band_fixed_direct", b, &[r]);
+		}
+		check_band_direct(s, "eq_band_fixed_direct", b, &[96000, 16000, 96000, 22050]);
+		check_band_direct(s, "eq_band_fixed_direct", b, &[16000, 48000, 16000]);
+	}
+	// the top octave of ordinary devices and a band close to the Nyquist frequency of a slow one
+	check_band_direct(s, "eq_band_fixed_direct", &Band { kind: EqFilterKind::Bell, f0: 16000.0, gain_db: 6.0, q: 4.0 }, &[96000, 48000, 44100]);
+	check_band_direct(s, "eq_band_fixed_direct", &Band { kind: EqFilterKind::HighShelf, f0: 12000.0, gain_db: 6.0, q: 0.7 }, &[48000, 44100, 32000]);
+	check_band_direct(s, "eq_band_fixed_direct", &Band { kind: EqFilterKind::Bell, f0: 3500.0, gain_db: 12.0, q: 5.0 }, &[8000, 11025, 8000]);
+	// on a sub-track of a real manager: every rate from the start, and the orders of add and change
+	let fixed = |sr0: u32, before_add: Vec<Pre>, after_add: Vec<Pre>| FxHist { sr0, ibs: 32, fpc: 100, before_add, after_add };
+	for r in EQ_RATES {
+		check_band_scene(s, "eq_band_fixed_scene", &bell, &fixed(r, vec![], vec![]));
+	}
+	for (r1, r2) in [(96000u32, 16000u32), (16000, 96000), (48000, 22050)] {
+		for h in [
+			fixed(r1, vec![], vec![Pre::Cb(100), Pre::Cb(100), Pre::Change(r2), Pre::Cb(100)]), // in the arena, processed, then the change
+			fixed(r1, vec![], vec![Pre::Change(r2)]),                                          // queued during the change
+			fixed(r1, vec![Pre::Cb(100), Pre::Change(r2)], vec![]),                           // change, then add
+			fixed(r1, vec![], vec![Pre::Cb(100), Pre::Change(r2), Pre::Change(r1), Pre::Cb(50), Pre::Change(r2)]),
+			// a frequency set through the handle BEFORE the change means hertz after it as well
+			fixed(r1, vec![], vec![Pre::Cb(100), Pre::SetEqFrequency(6000.0), Pre::Cb(100), Pre::Change(r2)]),
+		] {
+			let start = if h.after_add.iter().any(|p| matches!(p, Pre::SetEqFrequency(_))) { Band { f0: 1500.0, ..bell } } else { bell };
+			check_band_scene(s, "eq_band_fixed_scene", &start, &h);
+		}
+	}
+}
+fn gen_band(rng: &mut Rng, min_rate: u32) -> Band {
+	let kind = *rng.pick(&[EqFilterKind::Bell, EqFilterKind::Bell, EqFilterKind::LowShelf, EqFilterKind::HighShelf]);
+	// the band frequency as a fraction of the LOWEST rate it will meet: mostly the upper region, sometimes ordinary
+	let frac = if rng.chance(3, 4) { 0.18 + 0.27 * rng.unit_f64() } else { 0.01 + 0.17 * rng.unit_f64() };
+	let f0 = (frac * min_rate as f64 * 8.0).round() / 8.0;
+	let mag = 3.0 + (rng.below(121) as f64) / 8.0; // 3 .. 18 dB in steps representable in binary32
+	let gain_db = if rng.chance(1, 2) { mag } else { -mag };
+	let q = if kind == EqFilterKind::Bell { 0.7 + 7.3 * rng.unit_f64() } else { 0.5 + 1.5 * rng.unit_f64() };
+	Band { kind, f0, gain_db, q }
+}
+fn gen_eq_rate(rng: &mut Rng) -> u32 {
+	if rng.chance(1, 6) {
+		rng.range(8000, 192000) as u32
+	} else {
+		*rng.pick(&[8000u32, 11025, 16000, 22050, 32000, 44100, 48000, 88200, 96000, 192000])
+	}
+}
+fn part_e_random(s: &mut Session, rng: &mut Rng, args: &Args) {
+	let n: u64 = (if args.thorough { 600 } else { 60 }) * args.budget_mul;
+	for i in 0..n {
+		if i % 3 != 2 {
+			let rates: Vec<u32> = (0..1 + rng.below(3)).map(|_| gen_eq_rate(rng)).collect();
+			let band = gen_band(rng, *rates.iter().min().unwrap());
+			check_band_direct(s, "eq_band_random_direct", &band, &rates);
+		} else {
+			let mut h = gen_fx_hist(rng, false);
+			h.sr0 = gen_eq_rate(rng);
+			for p in h.before_add.iter_mut().chain(h.after_add.iter_mut()) {
+				if let Pre::Change(r) = p {
+					*r = gen_eq_rate(rng);
+				}
+			}
+			let mut min_rate = h.sr0;
+			for p in h.before_add.iter().chain(&h.after_add) {
+				if let Pre::Change(r) = p {
+					min_rate = min_rate.min(*r);
+				}
+			}
+			let band = gen_band(rng, min_rate);
+			let mut start = band;
+			if rng.chance(1, 3) {
+				// configured elsewhere, moved to the band frequency through the handle somewhere in the history
+				start.f0 = (band.f0 / 3.0).max(20.0);
+				let at = rng.below(h.after_add.len() as u64 + 1) as usize;
+				h.after_add.insert(at, Pre::SetEqFrequency(band.f0));
+			}
+			check_band_scene(s, "eq_band_random_scene", &start, &h);
+		}
+	}
+	s.notes.push("Part E: sine response of the real EqFilter (bell / low shelf / high shelf) at its band frequency (and 4 % to either side for bells), driven directly through init / on_change_sample_rate sequences and on sub-tracks of a real manager through add / callback / change / set_frequency histories; band frequencies up to 0.45 of the device rate; fixed bands at 6 kHz on 96 / 48 / 44.1 / 22.05 / 16 kHz devices run first on every seed".to_string());
+}
+
 pub fn run(args: &Args) {
 	let mut rng = Rng::new(args.seed ^ 0xC16);
 	let mut s = Session::new(
@@ -1303,6 +1622,9 @@ pub fn run(args: &Args) {
 		300,
 		"protocol: one case = one history of add (manager.add_sub_track / add_spatial_sub_track / add_send_track, handle.add_sub_track / add_spatial_sub_track on nested tracks, with or without audio-thread steps injected between the load of the rate and the enqueue) / set_sample_rate / callback steps on a real AudioManager with probe effects (also inside real Delays' feedback chains); observables: (probe, rate last told, bits of dt, frames) of every process call in call order + every probe's full told-log; distinct = distinct history in which at least one probe processed",
 	);
+	// ---- Part E first: fixed EQ bands at a large fraction of the device rate (independent of the seed), then seeded ones
+	part_e_fixed(&mut s);
+	part_e_random(&mut s, &mut Rng::new(args.seed ^ 0xC16E0), args);
 	for (kind, h) in regressions() {
 		let before = s.failures.len();
 		emit_hist(&mut s, kind, &h);
